@@ -307,7 +307,7 @@ def cases(draw):
                 # holds present optionals produced by built-ins (index_of, map remove)
                 stmts.append(("decl", "lo2", ("list", ("opt", "int")), ("list", [I(1), ("nil",), I(3)]), ()))
                 has_opt = True
-            k = g.choice(["push", "set", "read", "isnil", "pushfrom", "pushfrom", "eqshadow"])
+            k = g.choice(["push", "set", "read", "isnil", "pushfrom", "pushfrom", "eqshadow", "opassign-last", "opassign-last"])
             g.label("optional-elements")
             if k == "push":
                 v = I(g.int(0, 9))
@@ -325,6 +325,24 @@ def cases(draw):
                 stmts.append(("if", ("bin", "==", V("tmpo"), ("nil",)), [("expr", ("mcall", V("lo2"), "push", [("nil",)]))],
                               [("expr", ("mcall", V("lo2"), "push", [("bin", "+", ("or", V("tmpo"), I(0)), I(0))]))]))
                 stmts.append(("print", ("bin", "==", V("lo"), V("lo2"))))
+            elif k == "opassign-last":
+                # an op-assignment on the LAST element (which may hold what a built-in handed back: a present optional with its
+                # wrapper), guarded so that it is present; the shadow list gets the same update
+                g.label("optional-element-op-assignment")
+                if g.chance(70):
+                    # the last element is what a built-in hands back, pushed DIRECTLY (no variable in between)
+                    src = ("mcall", V(g.choice(ints)), "index_of", [I(g.int(0, 9))])
+                    stmts.append(("decl", "tmpo", ("opt", "int"), src, ()))
+                    stmts.append(("expr", ("mcall", V("lo"), "push", [src])))
+                    stmts.append(("if", ("bin", "==", V("tmpo"), ("nil",)), [("expr", ("mcall", V("lo2"), "push", [("nil",)]))],
+                                  [("expr", ("mcall", V("lo2"), "push", [("bin", "+", ("or", V("tmpo"), I(0)), I(0))]))]))
+                last = lambda l: ("bin", "-", ("mcall", V(l), "len", []), I(1))
+                opk = g.choice(["+=", "-=", "*="])
+                stmts.append(("if", ("bin", "!=", ("index", V("lo"), last("lo")), ("nil",)),
+                              [("opassign", ("index", V("lo"), last("lo")), opk, I(g.int(1, 3))), ("opassign", ("index", V("lo2"), last("lo2")), opk, I(0) if False else I(1))] if False else
+                              [("opassign", ("index", V("lo"), last("lo")), opk, I(2)), ("opassign", ("index", V("lo2"), last("lo2")), opk, I(2))], None))
+                stmts.append(("print", ("bin", "==", V("lo"), V("lo2"))))
+                stmts.append(("print", V("lo")))
             elif k == "eqshadow":
                 stmts.append(("print", ("bin", "==", V("lo"), V("lo2"))))
                 stmts.append(("print", ("bin", "==", V("lo2"), V("lo"))))
